@@ -119,7 +119,38 @@ def umap_multi_requests(tier, seed):
     return out
 
 
-def evaluate_umap_multi(res, binp):
+def multi_expected(p, c):
+    """what a change list must say for pair lists in which every key has ONE value per list (possibly repeated):
+    per key either nothing, one entry with the multiplicity delta, or remove-all-old + insert-all-new for a changed value"""
+    def coll(l):
+        d = {}
+        for k, v in l:
+            if k in d and d[k][0] != v:
+                return None
+            d[k] = (v, d.get(k, (v, 0))[1] + 1)
+        return d
+    P, C = coll(p), coll(c)
+    if P is None or C is None:
+        return None
+    exp = []
+    def mk(kind, k, v, n):
+        if kind == 'Insert':
+            return ('InsertSingle', k, v) if n == 1 else ('InsertMany', k, v, n)
+        return ('RemoveSingle', k) if n == 1 else ('RemoveMany', k, n)
+    for k in set(P) | set(C):
+        if k not in P:
+            exp.append(mk('Insert', k, C[k][0], C[k][1]))
+        elif k not in C:
+            exp.append(mk('Remove', k, None, P[k][1]))
+        elif P[k][0] == C[k][0]:
+            if C[k][1] > P[k][1]: exp.append(mk('Insert', k, C[k][0], C[k][1] - P[k][1]))
+            elif C[k][1] < P[k][1]: exp.append(mk('Remove', k, None, P[k][1] - C[k][1]))
+        else:
+            exp.append(mk('Remove', k, None, P[k][1])); exp.append(mk('Insert', k, C[k][0], C[k][1]))
+    return sorted(exp), len(P), len(C), C
+
+
+def evaluate_umap_multi(res, binp, minimal=False):
     import core as _core
     reqs = umap_multi_requests(res.tier, res.seed)
     rc, rows = _core.run_oracle(binp, reqs)
@@ -145,6 +176,26 @@ def evaluate_umap_multi(res, binp):
                 dis = 'applied result differs (repeated keys)'
         if dis:
             res.corr['model_disagreements'].append({'request': row[0][:1500], 'impl': row[1][:500], 'model': m[:500], 'what': dis})
+        if minimal:
+            q = sx.parse(row[0])
+            e = multi_expected(pairs_of(q[2]), pairs_of(q[3]))
+            if e is not None:
+                exp, np_, nc_, C = e
+                _core.hbump(res, 'multi-minimality-checked')
+                fail = None
+                if cd is None:
+                    if exp: fail = 'no diff although the pair multisets differ'
+                elif cd[0] == 'Modify':
+                    if sorted(cd[1]) != exp:
+                        fail = 'the change list is %s but exactly %s changed' % (sorted(cd[1]), exp)
+                else:
+                    want = sorted((k, v) for k, (v, n) in C.items() for _ in range(n))
+                    if sorted(cd[1]) != want:
+                        fail = 'a full replacement does not carry exactly the new collection'
+                    if nc_ >= np_:
+                        fail = 'full replacement although the new collection has at least as many distinct keys as the old one'
+                if fail:
+                    res.corr['impl_failures'].append({'request': row[0][:3000], 'impl': row[1][:500], 'what': fail + ' (pair lists with repeated keys)'})
 
 
 def canon_uchange(c):
